@@ -23,7 +23,7 @@ META = {
     "encoded": ["wishbone.bus.Decoder.__init__", "wishbone.bus.Decoder.add", "wishbone.bus.Decoder.align_to",
                 "wishbone.bus.Decoder.elaborate", "wishbone.bus.Interface.memory_map (setter)",
                 "memory.MemoryMap.add_window", "memory.MemoryMap.window_patterns"],
-    "also": 'as C06 plus feature sets given as wishbone.Feature members; address widths 12/20/30; a single window filling the whole address space (dense and sparse)',
+    "also": 'as C06 plus feature sets given as wishbone.Feature members; address widths 12/20/30; a single window filling the whole address space (dense and sparse); a subordinate whose memory map object is also a window of a second decoder',
     "bounds": "decoder addr width 2-6 (thorough 2-8), data width 8-64, granularity <= data width, seeded feature "
               "subsets on decoder and subordinates, 0-3 (thorough 0-4) windows: dense between equal data width and "
               "granularity, or sparse; implicit / explicit aligned / align_to placement, alignment 0-3, named/anonymous",
@@ -66,6 +66,17 @@ def _build(cfg):
                 raise AssertionError("out-of-bounds window accepted")
             except ValueError:
                 pass
+    if cfg.get("shared_map") and subs:
+        # the memory map of the first subordinate is ALSO the window of a subordinate of a second, unrelated decoder
+        # (the two ports of a dual-ported memory behind an instruction-side and a data-side decoder)
+        s0 = cfg["subs"][0]
+        dec2 = wishbone.Decoder(addr_width=cfg["aw"], data_width=cfg["dw"], granularity=cfg["gran"],
+                                features=fe(cfg["feat"]), alignment=cfg["align"])
+        port_b = wishbone.Interface(addr_width=s0["aw"], data_width=s0["dw"], granularity=s0["gran"],
+                                    features=fe(s0["feat"]), path=("port_b",))
+        port_b.memory_map = subs[0].memory_map
+        dec2.add(port_b, sparse=s0["sparse"])
+        dec._verif_other = (dec2, port_b)
     return dec, subs
 
 
@@ -83,7 +94,7 @@ def configs(tier, seed):
         feat = [f for f in FEATS if rnd.random() < 0.5]
         cfg = {"aw": aw, "dw": dw, "gran": gran, "feat": feat, "align": rnd.choice([0, 0, 0, 1, 2, 3]), "subs": [],
                "staged": rnd.choice([None, None, 1, 2]), "enum": rnd.random() < 0.4,
-               "refuse_after": rnd.choice([None, None, 0, 1])}
+               "refuse_after": rnd.choice([None, None, 0, 1]), "shared_map": tries % 5 == 2}
         for i in range(rnd.randint(0 if rnd.random() < 0.05 else 1, 3 if tier == "quick" else 4)):
             sparse = rnd.random() < 0.35
             if sparse:
